@@ -344,6 +344,14 @@ pub fn drive<P: Property>(p: &P, tier: Tier) -> i32 {
     let mut harness_errors: Vec<String> = vec![];
     let mut total = ThreadAgg::default();
     let mut witness_status: BTreeMap<String, String> = BTreeMap::new();
+    // failing cases of earlier runs of this check are stale: every run writes the ones it reports
+    if let Ok(rd) = std::fs::read_dir(Path::new(&verif_dir()).join("replays").join("_found")) {
+        for e in rd.flatten() {
+            if e.file_name().to_string_lossy().starts_with(&format!("{}-", id)) {
+                let _ = std::fs::remove_file(e.path());
+            }
+        }
+    }
 
     // ---- replay tier -------------------------------------------------------------------------
     let mut replayed = 0u64;
